@@ -27,6 +27,17 @@ def rec_of(p, scp):
     return r
 
 
+def given_of(kw, scp):
+    """the constructor's arguments in the shape of rec_of (mechanical renaming)"""
+    r = dict(reply=1 if kw["reply_expected"] else 0, data=list(kw.get("data", b"")))
+    for f, short in SHORT.items():
+        if f in kw:
+            r[short] = kw[f]
+    if scp:
+        r["args"] = [le4(kw.get("arg1")), le4(kw.get("arg2")), le4(kw.get("arg3"))]
+    return r
+
+
 def run(chk):
     rng = random.Random(chk.seed)
     chk.design("PacketsDesign", "PacketsDesign.cfg", expect_actions=("SetField",))
@@ -35,6 +46,7 @@ def run(chk):
     def one(kw, scp, nargs_list=(0, 1, 2, 3)):
         cls = SCPPacket if scp else SDPPacket
         p = cls(**kw)
+        evs.append(["new", given_of(kw, scp), rec_of(p, scp)])     # the packet is the one that was asked for
         b = p.bytestring
         evs.append(["scp_enc" if scp else "sdp_enc", rec_of(p, scp), list(b)])
         if scp:
